@@ -191,9 +191,14 @@ impl BackwardEngine {
         // Use conclusion index for O(1) lookup
         let candidates = self.conclusion_index.find_candidates(&goal.pattern);
 
-        // Add candidate rules to goal
-        for rule_name in candidates {
-            goal.add_candidate_rule(rule_name);
+        // Add candidate rules to goal in knowledge-base order (salience, then insertion), like the
+        // fallback below. `candidates` is a HashSet: iterating it directly yields a different order
+        // on every call, and the search strategies try the candidates in the order they are given,
+        // so the same rules, facts and configuration could produce different answers.
+        for rule in self.knowledge_base.get_rules() {
+            if candidates.contains(&rule.name) {
+                goal.add_candidate_rule(rule.name);
+            }
         }
 
         // If no candidates found via index, fall back to checking all rules
